@@ -25,11 +25,83 @@ PROPS = {
                        'differential run and the spec is evaluated directly on hashkit.Hash outputs.',
         'assumptions': ['keys are byte strings (each element < 256)', 'Go strings.Index / uint32 shift semantics as transcribed in Model/Crc16.v'],
     },
+    'C06': {
+        'props': 'Props/C06.v',
+        'suites': [{'name': 'cdecode', 'oracles': {'cdecode': 'o_reqs'}, 'trivial_tags': ['out-wait'], 'vm_sample': 40}],
+        'rule': 'client decoder on generated requests (every command x letter case x argument counts; MGET/DEL/MSET with forced slot '
+                'collisions via shared hash tags, duplicates, empty and binary keys/values, lengths straddling digit-count boundaries; '
+                'pipelined, truncated and mutated variants); distinct = distinct (limit, bytes); non-trivial = not a plain wait outcome',
+        'explanation': 'Theorems: wf_split1/wf_split2 for ANY slot function and key list (one canonical fragment per distinct slot holding exactly '
+                       'the items of that slot in order; partition corollary), and end to end through the decoder for MGET/DEL/MSET. The Go splitter '
+                       'is tied to the model differentially and the split spec is evaluated on the Go fragments.',
+        'assumptions': ['argument lengths and counts below 10^18 (an int64 length cannot exceed it)', 'Go map iteration order is irrelevant: fragments compared as a slot-sorted list'],
+    },
+    'C08': {
+        'props': 'Props/C08.v',
+        'suites': [{'name': 'cfeed', 'oracles': {'cfeed': 'o_feed'}, 'trivial_tags': [], 'vm_sample': 15}, {'name': 'cdecode', 'oracles': {'cdecode': 'o_reqs'}, 'trivial_tags': ['out-wait'], 'vm_sample': 40}],
+        'rule': 'cfeed: pipelines of 1-8 generated requests (6% mutated, 15% truncated) cut into one chunk / single bytes / two cuts / random '
+                'chunks, an exhaustive two-cut sweep of a 3-request pipeline, a 200 KB request crossing the 64 KiB read buffer - each run '
+                'through the production path unix.Read -> eventloop.cread -> conn.Peek/Discard -> Decode -> inbound ring buffer on a socketpair; '
+                'cdecode: as C06. distinct = distinct chunk list',
+        'explanation': 'Theorems: for EVERY byte stream and segmentation the read loop yields what extraction from the concatenation yields '
+                       '(C08_all_streams); for every well-formed pipeline exactly the encoded requests (C08_full); a proper prefix waits '
+                       '(C08_prefix_waits). The inbound buffer is an abstract byte list in the model (that the ring buffer is one is C19); the '
+                       'production read path incl. the real ring buffer is run against the model on every check.',
+        'assumptions': ['inbound leftover behaves as a FIFO byte list (property C19)', 'lengths below 10^18'],
+    },
+    'C12': {
+        'props': 'Props/C12.v',
+        'suites': [{'name': 'cdecode', 'oracles': {'cdecode': 'o_reqs'}, 'trivial_tags': ['out-wait'], 'vm_sample': 40}, {'name': 'cfeed', 'oracles': {'cfeed': 'o_feed'}, 'trivial_tags': [], 'vm_sample': 15}],
+        'rule': 'as C06/C08, with the hostile stream: counts/lengths 0, -1, -0, +1, 00, 01, 2^31, 2^63-1, 2^63, 2^64+k, 20+ digits, empty; wrong type '
+                'markers; dropped CR/LF; truncations; inline commands; random bytes; bit flips; leading blank lines - alone and followed by valid requests',
+        'explanation': 'Theorems (decoder side): the decoder never yields the nil result or diverges on any input (C12_decoder_total, '
+                       'C12_read_loop_total); every fragment built from ANY accepted input is a request of the strict Redis grammar '
+                       '(C12_forwarded_wellformed) and what was accepted is itself canonical (C12_accepted_is_canonical). The isolation of other '
+                       'connections is covered with the event-loop model (C03/C01 checks).',
+        'assumptions': ['memory exhaustion by a huge declared length that never arrives is outside the model', 'the strict grammar is a subset of what Redis accepts (argued from processMultibulkBuffer/string2ll)'],
+    },
+    'C17': {
+        'props': 'Props/C17.v',
+        'suites': [{'name': 'cdecode', 'oracles': {'cdecode': 'o_reqs'}, 'trivial_tags': ['out-wait'], 'vm_sample': 40}],
+        'rule': 'as C06; includes all 104 table names x 3 letter cases x 9 argument counts, 22 unsupported/near-miss names, and limits set to '
+                'the request size -2..+2, alone and inside a pipeline',
+        'explanation': 'Data theorems re-proved against the tables translated from commands.go and docs/command.md on this run (supported set = documented '
+                       'Yes rows + auth; three tables agree; case-insensitive lookup), and the logic theorem C17_classify: every canonical request, '
+                       'whatever follows it, consumes exactly its own bytes and is classified by the spec (too large iff its OWN size exceeds the limit).',
+        'assumptions': ['reply-size limit and "nothing is forwarded for a rejected request" are covered by the server-codec / event-loop checks'],
+    },
 }
 
 NOT_YET = {}
 
 MANIFEST_TEXT = {
+    'C06': {
+        'text': 'Coq theorems: the splitter model yields, for any slot function and any key list, exactly one canonical fragment per distinct slot with exactly '
+                'that slot\'s items in order (plus the partition corollary), and the decoder builds these fragments for every MGET/DEL/MSET stream. '
+                'Model tied to CRespCodec.Decode by differential run; the split spec is evaluated on the Go fragments.',
+        'note': 'Trusted: Coq kernel, translator, extraction, Go harness + hook VerifDecodeClient, the transcription in Model/ClientCodec.v. Lengths < 10^18.',
+        'technique': 'Coq proof (induction over the grouping fold; RESP round-trip lemmas) + differential correspondence',
+    },
+    'C08': {
+        'text': 'Coq theorems: for every byte stream and every segmentation the read loop extracts what extraction from the concatenation extracts; for '
+                'well-formed pipelines exactly the encoded requests; proper prefixes wait. The production read path (real ring buffer, real cread loop on a '
+                'socketpair) is run against the model.',
+        'note': 'Trusted as C06 plus the stepper hook (core/verif_loop.go). The inbound buffer is an abstract byte list in the theorem (C19 covers the ring buffer).',
+        'technique': 'Coq proof (parser monotonicity under buffer extension; fuelled read loop) + differential correspondence through the real event loop',
+    },
+    'C12': {
+        'text': 'Coq theorems (decoder side): no input makes the decoder return the nil message or diverge; every fragment built from any accepted input is '
+                'in the strict Redis request grammar; accepted inputs are canonical. Hostile mutational stream run through the Go decoder and read loop, with '
+                'the strict recogniser (proved complete for the grammar) applied to every forwarded fragment.',
+        'note': 'Trusted as C06. Memory exhaustion by unbounded buffering and fd exhaustion are outside the model.',
+        'technique': 'Coq proof (decoder soundness/completeness against the canonical encoder) + differential correspondence on a mutational corpus',
+    },
+    'C17': {
+        'text': 'Coq theorems: data theorems over the tables translated from the source and the documented table on every run; classification theorem '
+                '(own-size limit, case-insensitive name, arity rule, exact consumption whatever follows). Tied to Transform2Type/checkArgs/Decode differentially.',
+        'note': 'Trusted as C06 plus the markdown reader of the translator.',
+        'technique': 'Coq proof + vm_compute over finite tables regenerated from source + differential correspondence',
+    },
     'C05': {
         'text': 'Theorem (Coq, closed under the global context): for every byte string the model of hashkit.Hash equals the Redis Cluster key-slot '
                 'function (bit-serial CRC16/XMODEM of the hash tag, mod 16384); the 256-entry table literal is re-translated from crc16.go on every '
